@@ -111,7 +111,10 @@ FSTR14 = [  # every shape of replacement field: empty / literal / nested format 
     'a = f"{f\'{y:}\'}"\nb = f"{x=}"\nc = f"{x=!r:}"\nd = f""\ne = f"{x}{y:}{z!s}"\ng = f"a" "b" f"{c:}" f"{d}"',
     'a = f"""{\n x\n :\n}"""\nb = f"{x:{y:}}"\nc = f"{ {1: 2}[1] :}"\nd = f"{(lambda: 1)():}"',
 ]
-PROGS = PROGS + ARGS4 + PARAMS + BLOCKS + FSTR14
+LONG14 = [  # list fields with more than ten elements (indices of two digits in string paths)
+    "x = [a0, a1, a2, a3, a4, a5, a6, a7, a8, a9, a10, a11, a12]\n" + "\n".join(f"s{i} = {i}" for i in range(12)) + "\nf(b0, b1, b2, b3, b4, b5, b6, b7, b8, b9, b10, k=b11)",
+]
+PROGS = PROGS + ARGS4 + PARAMS + BLOCKS + FSTR14 + LONG14
 for _p in FSTR14:
     ast.parse(_p)
 for _p in PROGS[:N_HAND]:
@@ -394,6 +397,18 @@ def check_start(fst, root, start_f, pi, spath, full, res):
             if start_f.child_from_path(p1) is not f or start_f.child_from_path(p2) is not f:
                 res.fail(cid0 + '/paths', 'child_path-not-inverse', f'{names([a])} path={p2!r}', {}, rep)
                 break
+        # the string form is the grammar path written out ('body[0].value.elts[10]'): paths built from CPython's own field / index
+        # information must lead to the same nodes, and nothing else may be called by that name
+        seen_paths = {}
+        for gp, ga in O.iter_nodes(start_f.a):
+            if not gp:
+                continue
+            sp = O.path_str(gp)
+            got = start_f.child_from_path(sp)
+            if got is not ga.f or start_f.child_path(ga.f, True) != sp or sp in seen_paths:
+                res.fail(cid0 + '/paths', 'string-path-differs-from-grammar-path', f'path={sp!r} -> {got!r}, want {ga.f!r}; child_path={start_f.child_path(ga.f, True)!r}', {}, rep)
+                break
+            seen_paths[sp] = ga
     except Exception as e:  # noqa: BLE001
         res.fail(cid0 + '/paths', 'path-api-raised:' + e.__class__.__name__, repr(e), {}, rep)
     res.traces += 1
